@@ -215,11 +215,10 @@ func c13(c *Ctx) {
 			}
 			return -1
 		}, func(from, to *ssa.BasicBlock) int {
-			ifi, ok := from.Instrs[len(from.Instrs)-1].(*ssa.If)
-			if !ok || len(from.Succs) != 2 {
+			cd, ok := edgeCondResolved(from, to)
+			if !ok {
 				return -1
 			}
-			cd := normCond(Cond{V: ifi.Cond, Sense: to == from.Succs[0]})
 			if ex, ok := cd.V.(*ssa.Extract); ok && ex.Index == 1 {
 				if _, isTA := ex.Tuple.(*ssa.TypeAssert); isTA && !cd.Sense {
 					return evFail
@@ -641,7 +640,7 @@ func c13(c *Ctx) {
 					for _, cd := range vc.Conds {
 						facts = append(facts, canonOf(cd))
 					}
-					if s, isS := constString(vc.V); isS && s == "" && knownNil(facts, func(x ssa.Value) bool { return x == ssa.Value(fs) }) {
+					if s, isS := constString(vc.V); isS && s == "" && (knownNil(facts, func(x ssa.Value) bool { return x == ssa.Value(fs) }) || knownEmpty(facts, func(x ssa.Value) bool { return x == ssa.Value(fs) })) {
 						okNil = true
 					}
 				}
@@ -699,8 +698,7 @@ func c13(c *Ctx) {
 		okNone := false
 		eachInstr(ifi, func(in ssa.Instruction) {
 			if rt, ok := in.(*ssa.Return); ok && isNilConst(rt.Results[0]) {
-				cs := strings.Join(condStrings(rt.Block()), " && ")
-				if strings.Contains(cs, "builtin len") && strings.Contains(cs, "<1)=true") {
+				if knownEmpty(factsAt(rt.Block()), func(v ssa.Value) bool { return strings.Contains(exprString(v, 0), "ByIndex") }) {
 					okNone = true
 				}
 			}
